@@ -19,6 +19,18 @@ import copy
 from .front import ClassInfo
 
 
+def acopy(node):
+    """Deep copy of an AST subtree without following the `_parent` link out
+    of it (which would copy the whole module)."""
+    memo = {}
+    nodes = node if isinstance(node, list) else [node]
+    for n in nodes:
+        par = getattr(n, "_parent", None)
+        if par is not None:
+            memo[id(par)] = par
+    return copy.deepcopy(node, memo)
+
+
 class InlineBlock(ast.stmt):
     _fields = ("body",)
     _attributes = ("lineno", "col_offset", "end_lineno", "end_col_offset")
@@ -40,15 +52,20 @@ class Inliner:
     def _resolve(self, call):
         f = call.func
         if isinstance(f, ast.Attribute) and isinstance(f.value, ast.Name) \
-                and f.value.id == "self" and self.cls is not None:
+                and f.value.id in ("self", "cls") and self.cls is not None:
             r = self.cls.lookup(f.attr)
             if r is None:
                 return None
             node = r[2] if len(r) > 2 else r[1]
             if isinstance(node, (ast.FunctionDef, ast.AsyncFunctionDef)):
                 decos = [ast.unparse(d) for d in node.decorator_list]
-                if any(d in ("staticmethod", "classmethod", "property")
-                       for d in decos):
+                if any(d in ("staticmethod", "property") for d in decos):
+                    return None
+                first = node.args.args[0].arg if node.args.args else None
+                if "classmethod" in decos:
+                    if first != "cls" or f.value.id != "cls":
+                        return None
+                elif first != "self" or f.value.id != "self":
                     return None
                 return ("method", f.attr, node)
             return None
@@ -84,7 +101,7 @@ class Inliner:
 
     # -- expansion -------------------------------------------------------------
     def expand(self, fn, _stack=()):
-        fn2 = copy.deepcopy(fn)
+        fn2 = acopy(fn)
         fn2.body = self._block(fn2.body, (fn.name,) + tuple(_stack), 0)
         ast.fix_missing_locations(fn2)
         return fn2
@@ -128,7 +145,7 @@ class Inliner:
         params = [a.arg for a in fn.args.args] + [
             a.arg for a in fn.args.kwonlyargs]
         if how == "method":
-            if not params or params[0] != "self":
+            if not params or params[0] not in ("self", "cls"):
                 return None
             params = params[1:]
         pos = list(call.args)
@@ -159,7 +176,7 @@ class Inliner:
                 bind[p] = defaults[p]
         self.n += 1
         suffix = "__%s_%d" % (name.strip("_"), self.n)
-        body = copy.deepcopy(fn.body)
+        body = acopy(fn.body)
         if body and isinstance(body[0], ast.Expr) and isinstance(
                 body[0].value, ast.Constant) and isinstance(
                     body[0].value.value, str):
@@ -178,7 +195,7 @@ class Inliner:
         for p in params:
             b = ast.copy_location(ast.Assign(
                 [ast.Name(p + suffix, ast.Store())],
-                copy.deepcopy(bind[p])), at)
+                acopy(bind[p])), at)
             b._inline_param = True
             pre.append(b)
         body = self._block(body, stack + (name,), depth + 1)
